@@ -10,5 +10,6 @@ import (
 	_ "github.com/ozontech/file.d/zz_verifharness/h6throttle"
 	_ "github.com/ozontech/file.d/zz_verifharness/h7join"
 	_ "github.com/ozontech/file.d/zz_verifharness/h8admit"
+	_ "github.com/ozontech/file.d/zz_verifharness/h9outputs"
 	_ "github.com/ozontech/file.d/zz_verifharness/h3offsets"
 )
